@@ -46,6 +46,13 @@ LIFTS = {
         'anchor': r"for\s*\(\s*idx\s*,\s*token\s*\)\s+in\s+sm\.tokens\(\)\.enumerate\(\)\s*\{",
         'expect': [r'token\.is_range\(\)', r'encode_rmi\(', r"buf\.push\(b';'\)"],
     },
+    # the statement of decode_index that orders the sections on load
+    'index_sections_sort': {
+        'file': 'src/decoder.rs',
+        'mode': 'regex',
+        'anchor': r"sections\s*\.\s*sort\w*\s*\([^;]*\)\s*;",
+        'expect': [r'sort'],
+    },
     # body of the per-token loop of SourceMapIndex::flatten
     'flatten_token_body': {
         'file': 'src/types.rs',
@@ -224,7 +231,7 @@ PROPS['C07'] = {
           allow_uncovered={1: ['two range tokens on one line', 'empty line after'], 4: ['index >= 16']}.get(n))
         for n in (1, 2, 3, 4)
     ] + [
-        H('c07_rmi_encode_n1', 'encoder', 'thorough', 1200, 12, 'real encode_rmi (bitvec) on every 1-byte bit field: digit k/6 bit k%6, trailing zero digits trimmed'),
+        H('c07_rmi_encode_n1', 'encoder', 'quick', 1200, 12, 'real encode_rmi (bitvec) on every 1-byte bit field: digit k/6 bit k%6, trailing zero digits trimmed'),
         H('c07_rmi_encode_n2', 'encoder', 'thorough', 1800, 14, 'real encode_rmi on every 2-byte bit field'),
         H('c07_rmi_ser_idle', 'encoder_rmi', 'quick', 900, 10,
           'lifted body from an arbitrary writer state: a non-range token on the current line changes nothing'),
@@ -265,7 +272,9 @@ PROPS['C05'] = {
 
 PROPS['C08'] = {
     'title': 'Index maps: section lookup and flattening describe the same mapping',
-    'functions': ['types::SourceMapIndex::lookup_token', 'utils::greatest_lower_bound', 'types::SourceMap::lookup_token'],
+    'functions': ['types::SourceMapIndex::lookup_token', 'utils::greatest_lower_bound', 'types::SourceMap::lookup_token',
+                  'types::SourceMapIndex::flatten (per-token body, lifted)', 'decoder::decode_index (section-ordering statement, lifted)',
+                  'types::SourceMapSection::new/get_offset'],
     'harnesses': [
         H('c08_lookup_2x1', 'types', 'quick', 1500, 10, '2 sections (strictly increasing offsets, any u32) x 1 token each, any position'),
         H('c08_lookup_1x2', 'types', 'quick', 1500, 10, '1 section (any offset) x 2 sorted tokens, any position'),
@@ -276,6 +285,9 @@ PROPS['C08'] = {
         H('c08_flat_step', 'types_flat', 'quick', 900, 10,
           'lifted per-token body of flatten with a recording mock builder: any token of a section map (2 sources: #0 with '
           'contents, #1 without and ignored; 1 name; ids may dangle), any offsets whose sums fit u32, any mock answers'),
+        H('c08_load_sorted_n2', 'decoder_idx', 'quick', 900, 8, 'the lifted statement of decode_index that orders sections, real std sort, every vector of exactly 2 map-less sections (any u32 offsets)'),
+        H('c08_load_sorted_n3', 'decoder_idx', 'quick', 900, 8, 'same, exactly 3 sections'),
+        H('c08_load_sorted_n4', 'decoder_idx', 'quick', 900, 8, 'same, exactly 4 sections'),
         H('c08_agree', 'types_flat', 'quick', 1800, 10,
           '2 sections x 1 token, strictly increasing offsets, token of section 0 before section 1: flattened position (lifted body) '
           'fed to the real lookup_token'),
@@ -283,7 +295,9 @@ PROPS['C08'] = {
     'assumptions': ['sections built through SourceMapSection::new / SourceMapIndex::new with strictly increasing offsets',
                     'L1: the loop headers of flatten (`for section in self.sections()`, `for token in map.tokens()`) and the final '
                     'into_sourcemap are replaced by the harness; `builder` is a recording mock with the same method signatures',
-                    'S4: alloc::fmt::format stubbed (error message text is not the subject)'],
+                    'S4: alloc::fmt::format stubbed (error message text is not the subject)',
+                    'c08_load_sorted_*: only the statement `sections.sort…(…);` of decode_index is lifted (regex lift); the construction '
+                    'of the sections from the raw document around it is not executed'],
     'trusted': ['S4'],
     'outside': ['that flatten visits every section and token once and recurses into nested indexes (loop headers)',
                 'an unresolved section is an error (whole-flatten run timed out at 25 min: SourceMapBuilder hash maps)',
